@@ -159,3 +159,55 @@ def expected_probe(shape, k, p):
     else:
         items = [(p['stage'], inst_name(k, p['base']), p['file'])]
     return ('contents' if p['method'] in ('output', 'loopoutput') else 'paths', items)
+
+
+# ------------------------------------------------------------------ workflows with several DoWhile documents
+# A multi-loop shape is {'label', 'loops': [<single-loop shape + 'loop_name'>, ...], 'import_order': [loop indices],
+# 'store': bool, 'xconsumers': [{'name', 'stage', 'refs': [[loop idx, comp idx, method, file], ...]}]}.  A history is a
+# word over the letters A, B, C (one further iteration of loop 0, 1, 2) and R (restart).  The statement is applied to
+# every loop separately: loop j has its own iteration count ks[j].
+def loops_of(shape):
+    return shape['loops'] if 'loops' in shape else [shape]
+
+
+def loop_name(loop):
+    return loop.get('loop_name', 'loop')
+
+
+def dowhile_id(loop):
+    return ident(loop['S'], loop_name(loop))
+
+
+def expected_state_v(shape, ks):
+    """Union of expected_state(loop_j, ks[j]) over all loops; 'states' maps the DoWhile id to the loop's state."""
+    out = {'instances': {}, 'unreplicated': set(), 'placeholders': {}, 'states': {}, 'consumers': {}, 'outside': set(),
+           'placeholder_loop': {}}
+    per_loop = []
+    for j, loop in enumerate(loops_of(shape)):
+        st = expected_state(loop, ks[j])
+        per_loop.append(st)
+        for n, d in st['instances'].items():
+            d['loop'] = j
+            out['instances'][n] = d
+        out['unreplicated'] |= st['unreplicated']
+        for pid, ph in st['placeholders'].items():
+            out['placeholders'][pid] = ph
+            out['placeholder_loop'][pid] = j
+        out['states'][dowhile_id(loop)] = dict(st['state'], loop=j)
+        out['consumers'].update(st['consumers'])
+        out['outside'] |= st['outside']
+    for cons in shape.get('xconsumers', []):
+        must, may = set(), set()
+        for (j, pi, method, fil) in cons['refs']:
+            loop = loops_of(shape)[j]
+            p = loop['comps'][pi]
+            cond = loop['comps'][loop['cond']]
+            may |= {ident(comp_stage(loop, cond), inst_name(i, cond['name'])) for i in range(ks[j] + 1)}
+            for base in replica_names(p):
+                ph = per_loop[j]['placeholders'][ident(comp_stage(loop, p), base)]
+                must.add(ph['latest'])
+                may |= ph['represents']
+                if method in ('loopref', 'loopoutput'):
+                    must |= ph['represents']
+        out['consumers'][ident(cons['stage'], cons['name'])] = {'must': must, 'may': may | must}
+    return out
